@@ -211,7 +211,7 @@ func runScenario(c *core.Ctx, sc scenario, seed int64) ([]any, error) {
 	return recs, nil
 }
 
-var markOnly, mergeOutInRoot, mergeReqs int64
+var markOnly, mergeOutInRoot, mergeReqs, purgeSteps int64
 
 // filesRecords projects recorded events onto the vocabulary of TraceFiles.tla.
 func filesRecords(evs []sx.Event) []any {
@@ -241,6 +241,11 @@ func filesRecords(evs []sx.Event) []any {
 						}
 					}
 				}
+			}
+		case "PurgeZap":
+			if _, ok := ev["rootfiles"]; ok {
+				atomic.AddInt64(&purgeSteps, 1)
+				recs = append(recs, map[string]any{"ev": "PurgeZap", "file": ev["file"], "rootfiles": ev["rootfiles"], "named": ev["named"], "inel": ev["inel"], "copysched": ev["copysched"]})
 			}
 		case "MergeRequest":
 			if fm, _ := ev["filemerge"].(bool); fm {
@@ -420,6 +425,7 @@ func run(c *core.Ctx) error {
 	judge(c, "TraceFilesReader.cfg", all, owner)
 	c.Extra("samples_with_a_merge_output_in_root_protected_by_mark_only", atomic.LoadInt64(&markOnly))
 	c.Extra("file_merges_recorded", atomic.LoadInt64(&mergeReqs))
+	c.Extra("purge_steps_judged", atomic.LoadInt64(&purgeSteps))
 	c.Extra("sample_root_files_that_are_merge_outputs", atomic.LoadInt64(&mergeOutInRoot))
 	c.SetExhaustive(false)
 	return nil
